@@ -998,11 +998,21 @@ impl<'t, 'a, 'g> Gen<'t, 'a, 'g> {
             Arg::CbReduce => (self.callback(&[Ty::Num, Ty::Num], &Ty::Num), String::new()),
             Arg::CbCmp => {
                 // consistent comparators only (sort with an inconsistent comparator is implementation-defined)
-                let pool = ["((a, b) => a - b)", "((a, b) => b - a)", "((a, b) => (a % 3) - (b % 3))", "((a, b) => (a < b ? -1 : a > b ? 1 : 0))"];
+                // total orders only: NaN is mapped to a fixed key, otherwise the comparator would be inconsistent
+                let pool = [
+                    "((a, b) => { const k = (x) => (x !== x ? 1e9 : x); return k(a) === k(b) ? 0 : k(a) < k(b) ? -1 : 1; })",
+                    "((a, b) => { const k = (x) => (x !== x ? 1e9 : x); return k(a) === k(b) ? 0 : k(a) < k(b) ? 1 : -1; })",
+                    "((a, b) => { const k = (x) => (x % 3 !== x % 3 ? 9 : x % 3); return k(a) - k(b); })",
+                    "((a, b) => { const k = (x) => (x !== x ? -1e9 : x); return k(a) === k(b) ? 0 : k(a) < k(b) ? -1 : 1; })",
+                ];
                 (pool[self.tape.below(pool.len())].to_string(), String::new())
             }
             Arg::Radix => {
                 let pool = ["2", "8", "10", "16", "36", "3", "7"];
+                (pool[self.tape.below(pool.len())].to_string(), "radix".into())
+            }
+            Arg::ParseRadix => {
+                let pool = ["2", "8", "10", "16", "4", "32"];
                 (pool[self.tape.below(pool.len())].to_string(), "radix".into())
             }
             Arg::Digits => (self.tape.range(0, 8).to_string(), String::new()),
